@@ -74,6 +74,7 @@ ALGO_ACTIONS = ["PickGraph", "PickRequest", "CheckBegin", "ReportLoop", "CheckSk
                 "RunEnd", "Ended"]
 ASBUILT_ACTIONS = ["PickGraph", "PickRequest", "BCheckBegin", "BReportLoop", "BDescend", "BReturn", "BCheckDone",
                    "BCollect", "BSort", "BRunTarget", "BRunEnd", "Ended"]
+TRACE_CHUNK = 20    # = ChunkSize of tla/Tasks_Trace.tla
 TRACE_ACTIONS = ["PickChunk", "PickGraph", "PickRun", "TraceStart", "TraceLoop", "TraceDone"]
 
 
@@ -98,7 +99,7 @@ def m_jobs(tier):
     jobs.append(("spec n=3 self-deps, liveness", "Tasks_MC",
                  "CONSTANT Target = %s\nCONSTANT SelfDeps = TRUE\nSPECIFICATION MCSpec\nCHECK_DEADLOCK TRUE\n%s%s"
                  "INVARIANT LawMultiPath\nPROPERTY Terminates\n" % (targets_cfg(3, True), CLAUSES, LAWS),
-                 [], "holds"))
+                 MC_ACTIONS[2:], "holds"))
     thorough = tier == "thorough"
     jobs.append(("spec n=4%s" % (" self-deps" if thorough else ""), "Tasks_MC",
                  staged_cfg(4, thorough, CLAUSES + LAWS), MC_ACTIONS, "holds"))
@@ -383,7 +384,7 @@ class Engine:
                    "describes")
 
         finish_m = None
-        if ctx.only is None and not os.environ.get("C34_SKIP_M"):
+        if ctx.only is None:
             finish_m = start_m(ctx)
         try:
             self.conformance(ctx, thorough)
@@ -434,9 +435,23 @@ class Engine:
         """Encode the histories for Tasks_Trace (targets numbered 1..5, grouped by project), run TLC, map every
         violated invariant back to the history it points to (state variables g, i)."""
         num = {c: k + 1 for k, c in enumerate(ALL)}
+        # negative controls (anti-vacuity, checked in every run): corrupted copies of a recorded history that the
+        # specification must refuse -- last event deleted, an event duplicated, outcome flipped
+        controls = []
+        if ctx.only is None:
+            base = next((r for r in recs if r["outcome"] == "done" and len(r["events"]) >= 2), None)
+            if base:
+                controls.append(dict(base, events=base["events"][:-1], control="last event deleted"))
+                controls.append(dict(base, events=base["events"] + base["events"][-1], control="event duplicated"))
+                controls.append(dict(base, outcome="loop", control="outcome flipped to loop"))
+                controls.append(dict(base, outcome="error", control="outcome replaced by an exception"))
+            base = next((r for r in recs if r["outcome"] == "loop"), None)
+            if base:
+                controls.append(dict(base, outcome="done", control="outcome flipped to done"))
+        refused_controls = set()
         groups, index = [], {}
-        for r in recs:
-            gk = (r["names"], tuple(r["deps"]))
+        for r in list(recs) + controls:
+            gk = (r["names"], tuple(r["deps"]), bool(r.get("control")))
             if gk not in index:
                 index[gk] = len(groups)
                 groups.append({"deps": [[num[c] for c in d] for d in r["deps"]], "runs": [], "recs": []})
@@ -447,9 +462,14 @@ class Engine:
         # (-coverage only in the thorough tier: it costs a quarter of the run; that every history was really walked
         #  through is checked below from TLC's state count)
         res = ctx.tlc("Tasks_Trace", TRACE_CFG, label="trace validation (%d histories of %d projects)" % (
-            len(recs), len(groups)), env={"TRACE_FILE": path}, continue_=True, coverage=ctx.tier == "thorough", workers=8)
+            len(recs) + len(controls), len(groups)), env={"TRACE_FILE": path}, continue_=True, coverage=ctx.tier == "thorough", workers=8)
         os.unlink(path)
         ctx.cov["traces_validated_against_impl"] += len(recs)
+        if ctx.tier == "thorough" and ctx.only is None and len(recs) > 1000:
+            cov = tlcmod.action_coverage(res)
+            missing = [a for a in TRACE_ACTIONS if not any(k.split(".")[-1] == a and v > 0 for k, v in cov.items())]
+            if missing:
+                raise tlcmod.MachineryError("trace actions never taken: %s" % missing)
         refused_at = {}
         seen = set()
         for e in res.errors:
@@ -468,6 +488,10 @@ class Engine:
                 why = e.name
             if e.name == "Follows" and isinstance(st.get("l"), int):
                 refused_at[(gi, ri)] = st["l"]
+            if groups[gi - 1]["recs"][ri - 1].get("control"):
+                if e.name == "Follows":
+                    refused_controls.add(groups[gi - 1]["recs"][ri - 1]["control"])
+                continue
             if (gi, ri, why) in seen:
                 continue
             seen.add((gi, ri, why))
@@ -482,10 +506,16 @@ class Engine:
                           {"names": r["names"], "deps": r["deps"], "req": r["req"], "events": r["events"],
                            "outcome": r["outcome"], "detail": r["detail"], "runs": r["runs"], "clause": why,
                            "position": pos})
+        for r in controls:
+            if r["control"] not in refused_controls:
+                raise tlcmod.MachineryError("negative control '%s' was not refused by Tasks_Trace (history [%s] %s of "
+                                            "graph %s)" % (r["control"], ",".join(r["events"]), r["outcome"],
+                                                           graph_text(r["names"], r["deps"])))
+        ctx.cov["negative_controls_refused"] = ctx.cov.get("negative_controls_refused", 0) + len(controls)
         # anti-vacuity: one state per position of every history (g, i, l are part of the state): the initial state,
         # the chunks, the projects, then l = 1 .. Len(events)+2 for a history followed to its end and 1 .. l for one
         # refused at position l.  Any other count means the trace specification did not walk the histories.
-        chunks = (len(groups) + 99) // 100
+        chunks = (len(groups) + TRACE_CHUNK - 1) // TRACE_CHUNK
         expected = 1 + chunks + len(groups)
         for gi, grp in enumerate(groups, 1):
             for ri, r in enumerate(grp["recs"], 1):
